@@ -105,6 +105,10 @@ pub fn random_case(rng: &mut StdRng, rep: &mut Report) {
 }
 
 pub fn replay(case: &monlib::Value, rep: &mut Report) {
+    if case["kind"].as_str() == Some("c18-huge") {
+        unreachable_capacity_case(case["capacity"].as_str().and_then(|c| c.parse().ok()).unwrap_or(usize::MAX), case["keys"].as_u64().unwrap_or(100), rep);
+        return;
+    }
     if case["kind"].as_str() == Some("c18-large") {
         large_capacity_case(case["capacity"].as_u64().unwrap_or(1) as usize, case["extra"].as_u64().unwrap_or(1) as usize, rep);
         return;
@@ -118,6 +122,40 @@ pub fn replay(case: &monlib::Value, rep: &mut Report) {
 /// `capacity + extra` distinct keys are put in order; afterwards exactly the `extra` oldest keys must
 /// be gone, everything else present, and the size must equal the capacity. No model map is kept
 /// (memory) — for distinct sequential keys the expected content is known in closed form.
+/// Capacities that can never be filled ("unbounded": usize::MAX, the neighbourhood of isize::MAX and of
+/// 2^32): a few thousand distinct keys are stored; nothing may be evicted, every key is found with
+/// its latest value, the size is the number of keys.
+pub fn unreachable_capacity_case(cap: usize, n: u64, rep: &mut Report) {
+    let replay = json!({"kind":"c18-huge","capacity":cap.to_string(),"keys":n});
+    let r = guarded_mut(|| {
+        let mut t = Table::new(cap);
+        for k in 0..n {
+            t.put(k.wrapping_mul(0x9E3779B97F4A7C15) | 1, k);
+            if t.len() as u64 != k + 1 { return Err(format!("len {} after {} distinct puts", t.len(), k + 1)); }
+        }
+        for k in 0..n / 2 { t.put(k.wrapping_mul(0x9E3779B97F4A7C15) | 1, k + 1_000_000); }
+        if t.len() as u64 != n || t.queue_len() as u64 != n { return Err(format!("len {} / queue {} after re-storing present keys, expected {}", t.len(), t.queue_len(), n)); }
+        for k in 0..n {
+            let want = if k < n / 2 { k + 1_000_000 } else { k };
+            let got = t.get(k.wrapping_mul(0x9E3779B97F4A7C15) | 1);
+            if got != Some(want) { return Err(format!("key #{} -> {:?}, expected {:?}", k, got, Some(want))); }
+        }
+        t.clear();
+        if t.len() != 0 || t.queue_len() != 0 { return Err("clear left entries".into()); }
+        t.put(7, 7);
+        if t.get(7) != Some(7) || t.len() != 1 { return Err("put after clear lost".into()); }
+        Ok(())
+    });
+    rep.eval();
+    rep.count("unreachable_capacity_cases");
+    rep.add("operations", n * 5 / 2);
+    match r {
+        Err(pm) => rep.violation(&format!("table-huge-capacity-{}", panic_sig(&pm)), format!("capacity {}: {}", cap, pm), replay),
+        Ok(Err(d)) => rep.violation("table-huge-capacity", format!("capacity {}: {}", cap, d), replay),
+        Ok(Ok(())) => rep.distinct_hash(monlib::mix(cap as u64, n)),
+    }
+}
+
 pub fn large_capacity_case(cap: usize, extra: usize, rep: &mut Report) {
     let replay = json!({"kind":"c18-large","capacity":cap,"extra":extra});
     let r = guarded_mut(|| {
